@@ -357,6 +357,70 @@ func checkC16(c *core.Ctx) {
 		}
 		return core.Pass()
 	})
+	// (4f) the input, the weight or the bias is itself the RESULT of an operation (images.Flatten(1) before the
+	// first layer, tied / reshaped weights installed through Weights()): gradients reach the intermediate
+	// tensor handed to the layer AND the leaves behind it
+	{
+		type prod struct {
+			name  string
+			leaf  []int
+			nodes []ref.Op
+		}
+		B, D, O := 2, 6, 3
+		xProds := []prod{
+			{"Flatten", []int{B, 2, 3}, []ref.Op{{K: "Flatten", Dim: 1}}},
+			{"Reshape", []int{B * D}, []ref.Op{{K: "Reshape", Shape: []int{B, D}}}},
+			{"Squeeze", []int{B, 1, D}, []ref.Op{{K: "Squeeze", Dim: 1}}},
+			{"UnSqueeze>Squeeze", []int{B, D}, []ref.Op{{K: "UnSqueeze", Dim: 0}, {K: "Squeeze", Dim: 0}}},
+			{"Transpose", []int{D, B}, []ref.Op{{K: "Transpose"}}},
+			{"Scale", []int{B, D}, []ref.Op{{K: "Scale", F: 1.5}}},
+			{"Scale>Scale", []int{B, D}, []ref.Op{{K: "Scale", F: 0.5}, {K: "Scale", F: 3}}},
+			{"Tanh", []int{B, D}, []ref.Op{{K: "Tanh"}}},
+			{"Slice", []int{B + 1, D}, []ref.Op{{K: "Slice", Index: []ref.Range{{From: 1, To: B + 1}}}}},
+			{"Reshape>Flatten", []int{B, 3, 2}, []ref.Op{{K: "Reshape", Shape: []int{B, 2, 3}}, {K: "Flatten", Dim: 1}}},
+		}
+		wProds := []prod{
+			{"leaf", []int{O}, nil},
+			{"Reshape", []int{O, 1}, []ref.Op{{K: "Reshape", Shape: []int{O}}}},
+			{"Squeeze", []int{1, O}, []ref.Op{{K: "Squeeze", Dim: 0}}},
+			{"Flatten", []int{O, 1}, []ref.Op{{K: "Flatten", Dim: 0}}},
+			{"Scale", []int{O}, []ref.Op{{K: "Scale", F: 2}}},
+			{"Slice", []int{O + 2}, []ref.Op{{K: "Slice", Index: []ref.Range{{From: 1, To: O + 1}}}}},
+		}
+		for _, xp := range xProds {
+			for _, wp := range wProds {
+				xp, wp := xp, wp
+				c.Case(fmt.Sprintf("produced/x=%s/w=%s", xp.name, wp.name), true, func() core.Verdict {
+					p := &ref.Program{Leaves: []*ref.T{enum.Generic(xp.leaf, 861, 0.1, 0.9, true), enum.Generic(wp.leaf, 862, 0.5, 2, true), enum.Generic(wp.leaf, 863, 0.5, 2, true)}, Tracked: []bool{true, true, true}}
+					chain := func(start int, ops []ref.Op) int {
+						cur := start
+						for _, op := range ops {
+							p.Nodes = append(p.Nodes, ref.Node{Op: op, In: []int{cur}})
+							cur = p.NTensors() - 1
+						}
+						return cur
+					}
+					x := chain(0, xp.nodes)
+					w := chain(1, wp.nodes)
+					b := chain(2, wp.nodes)
+					p.Nodes = append(p.Nodes, ref.Node{Op: ref.Op{K: "FC"}, In: []int{x, w, b}})
+					if _, ok := p.Forward(); !ok {
+						return core.Fail("HARNESS: invalid produced-input program")
+					}
+					q, root := withWeighting(p, p.NTensors()-1, 864)
+					v := gradCase(q, root, gradOpts{allowKF: true})
+					if !v.OK && !v.Skip && v.KF == "" {
+						d := v.Detail
+						if len(d) > 900 {
+							d = d[:900]
+						}
+						v.Detail = fmt.Sprintf("FC whose input is the result of %s and whose parameters are results of %s: %s :: %s", xp.name, wp.name, describeProgram(q), d)
+					}
+					return v
+				})
+			}
+		}
+	}
 	// (4e) a further Forward (an evaluation batch) between BackPropagate and the use of the
 	// delivered gradients leaves them in place: same gradient objects, same values, and the
 	// optimizer can still step the parameters through the Weights() pointers
